@@ -128,7 +128,7 @@ func runC04(c *Ctx) {
 
 	// R4.2
 	r.Rule("R4.2", "length gates dominate decoding: v1 — a `len(payload) != sizeNormal` test with an error return is passed before the field loop; v2 — when len(payload) < sizeExtended the slice entering the loop is a zero-extended one of sizeExtended bytes; "+
-		"the gates compare against the codec's own size fields", 2)
+		"the gates compare against the codec's own size fields; the v1 gate is the only error return of Read", 3)
 	// isV2 tests: edges on which isV2 is true / false
 	v2True, v2False := map[edge]bool{}, map[edge]bool{}
 	for _, iff := range ifsIn(rd) {
@@ -171,6 +171,30 @@ func runC04(c *Ctx) {
 			}
 		}
 		r.Check(ok, "R4.2", "ReadWriter.Read v1 exact length", c.Pos(rd.Pos()), "v1 payload must have exactly sizeNormal bytes", whyV1)
+		// … and it is the only rejection: a v2 payload is decoded whatever its length (shorter: zero-extended; longer:
+		// the unknown tail is ignored), so no other error return exists in Read
+		badRet := ""
+		for _, ret := range retInstrs(rd) {
+			if len(ret.Results) != 2 || isNilConst(ret.Results[1]) {
+				continue
+			}
+			if v1If != nil && (ret.Block() == v1Fail || edgeMustPass(rd, edge{v1If.Block(), v1Fail}, ret.Block())) {
+				continue
+			}
+			// defensive refusal of a nil argument (could never be decoded)
+			nilArg := false
+			for _, prm := range rd.Params {
+				if iff, _, isNil := nilGuard(rd, prm); iff != nil && isNil != nil && (ret.Block() == isNil || edgeMustPass(rd, edge{iff.Block(), isNil}, ret.Block())) {
+					nilArg = true
+				}
+			}
+			if nilArg {
+				continue
+			}
+			badRet = c.Pos(ret.Pos())
+		}
+		r.Check(badRet == "", "R4.2", "ReadWriter.Read rejections", c.Pos(rd.Pos()), "the v1 exact-length test is the only rejection",
+			"ReadWriter.Read returns an error at "+badRet+" under a condition other than the v1 exact-length test: v2 payloads that are truncated, or longer than the message (zero padding, extension fields of a newer revision), must decode")
 		// v2: zero extension of short payloads
 		var v2If *ssa.If
 		var long *ssa.BasicBlock
@@ -363,7 +387,7 @@ func runC04(c *Ctx) {
 
 	// R4.4
 	r.Rule("R4.4", "extension / version symmetry: Read and Write skip a field exactly when `!isV2 && isExtension`, before touching the buffer; Write's buffer has size() bytes = sizeExtended for v2 and sizeNormal for v1; "+
-		"each field is read/written at the struct field given by its own index; the byte cursor advances only by the count returned by readValue / writeValue for that cursor", 5)
+		"each field is read/written at the struct field given by its own index; the byte cursor advances only by the count returned by readValue / writeValue for that cursor; the encode buffer is a per-call allocation", 6)
 	ruleCursor(c, "R4.4")
 	for _, v := range []struct {
 		fn   *ssa.Function
@@ -435,45 +459,7 @@ func runC04(c *Ctx) {
 		}
 		r.Check(ok, "R4.4", fnLocalName(v.fn)+" extension skipping", c.Pos(v.fn.Pos()), "skip iff !isV2 && isExtension", why)
 	}
-	// the encode buffer has sizeExtended bytes for v2 and sizeNormal for v1: through the size(isV2) helper, or selected in
-	// line (the helper, where it exists, is checked as part of the same obligation)
-	okBuf := false
-	whyBuf := "the encode buffer is not allocated with (isV2 ? sizeExtended : sizeNormal) bytes"
-	for _, in := range allInstrs(wr) {
-		ms, ok := in.(*ssa.MakeSlice)
-		if !ok || typeStr(ms.Type()) != "[]byte" {
-			continue
-		}
-		l := ms.Len
-		if cv, ok := l.(*ssa.Convert); ok {
-			l = cv.X
-		}
-		if call, ok := l.(*ssa.Call); ok && ex(call) == "(message.ReadWriter).size(recv,arg1)" {
-			if sz := c.FnOpt("pkg/message", "ReadWriter.size"); sz != nil {
-				r.Functions[fnQual(sz)] = true
-				for _, iff := range ifsIn(sz) {
-					if t, f, hit := succWhen(iff, "arg0"); hit {
-						rt, ok1 := t.Instrs[len(t.Instrs)-1].(*ssa.Return)
-						rf, ok2 := f.Instrs[len(f.Instrs)-1].(*ssa.Return)
-						if ok1 && ok2 && ex(rt.Results[0]) == "recv.sizeExtended" && ex(rf.Results[0]) == "recv.sizeNormal" {
-							okBuf = true
-						}
-					}
-				}
-				for _, ret := range retInstrs(sz) {
-					if selectsBy(sz, ret.Results[0], "arg0", "recv.sizeExtended", "recv.sizeNormal") {
-						okBuf = true
-					}
-				}
-				if !okBuf {
-					whyBuf = "size(isV2) must return sizeExtended for v2 and sizeNormal for v1"
-				}
-			}
-		} else if selectsBy(wr, ms.Len, "arg1", "recv.sizeExtended", "recv.sizeNormal") {
-			okBuf = true
-		}
-	}
-	r.Check(okBuf, "R4.4", "ReadWriter.Write buffer size", c.Pos(wr.Pos()), "make([]byte, isV2 ? sizeExtended : sizeNormal)", whyBuf)
+	ruleEncodeBuffer(c, "R4.4")
 
 	ruleStrings(c, "R4.5")
 	ruleValueCodecs(c, "R4.6")
@@ -615,4 +601,89 @@ func ruleCursor(c *Ctx, rule string) {
 		}
 		r.Check(okCur && nAdv > 0, rule, v.name+" cursor discipline", c.Pos(fn.Pos()), fmt.Sprintf("%d cursor advances, each by the codec's own count", nAdv), orStr(whyCur, "no cursor advance found in the field loop"))
 	}
+}
+
+// ruleEncodeBuffer (R4.4 / R15.5): ReadWriter.Write encodes into a buffer it allocates itself, per call, with
+// sizeExtended bytes for v2 and sizeNormal for v1. (A scratch buffer kept in the codec would be shared by every
+// goroutine that encodes the same message type — the codec objects are shared by all channels and callers of a node.)
+func ruleEncodeBuffer(c *Ctx, rule string) {
+	r := c.R
+	wr := c.Fn("pkg/message", "ReadWriter.Write")
+	if wr == nil {
+		return
+	}
+	r.Functions[fnQual(wr)] = true
+	// the encode buffer has sizeExtended bytes for v2 and sizeNormal for v1: through the size(isV2) helper, or selected in
+	// line (the helper, where it exists, is checked as part of the same obligation)
+	okBuf := false
+	whyBuf := "the encode buffer is not allocated with (isV2 ? sizeExtended : sizeNormal) bytes"
+	for _, in := range allInstrs(wr) {
+		ms, ok := in.(*ssa.MakeSlice)
+		if !ok || typeStr(ms.Type()) != "[]byte" {
+			continue
+		}
+		l := ms.Len
+		if cv, ok := l.(*ssa.Convert); ok {
+			l = cv.X
+		}
+		if call, ok := l.(*ssa.Call); ok && ex(call) == "(message.ReadWriter).size(recv,arg1)" {
+			if sz := c.FnOpt("pkg/message", "ReadWriter.size"); sz != nil {
+				r.Functions[fnQual(sz)] = true
+				for _, iff := range ifsIn(sz) {
+					if t, f, hit := succWhen(iff, "arg0"); hit {
+						rt, ok1 := t.Instrs[len(t.Instrs)-1].(*ssa.Return)
+						rf, ok2 := f.Instrs[len(f.Instrs)-1].(*ssa.Return)
+						if ok1 && ok2 && ex(rt.Results[0]) == "recv.sizeExtended" && ex(rf.Results[0]) == "recv.sizeNormal" {
+							okBuf = true
+						}
+					}
+				}
+				for _, ret := range retInstrs(sz) {
+					if selectsBy(sz, ret.Results[0], "arg0", "recv.sizeExtended", "recv.sizeNormal") {
+						okBuf = true
+					}
+				}
+				if !okBuf {
+					whyBuf = "size(isV2) must return sizeExtended for v2 and sizeNormal for v1"
+				}
+			}
+		} else if selectsBy(wr, ms.Len, "arg1", "recv.sizeExtended", "recv.sizeNormal") {
+			okBuf = true
+		}
+	}
+	r.Check(okBuf, rule, "ReadWriter.Write buffer size", c.Pos(wr.Pos()), "make([]byte, isV2 ? sizeExtended : sizeNormal)", whyBuf)
+
+	// every buffer handed to writeValue is (a slice of) that fresh allocation
+	shared := ""
+	for _, ci := range callsNamed(wr, "message.writeValue") {
+		root := ci.Common().Args[0]
+		seen := map[ssa.Value]bool{}
+		var fresh func(v ssa.Value) bool
+		fresh = func(v ssa.Value) bool {
+			if seen[v] {
+				return true
+			}
+			seen[v] = true
+			switch x := v.(type) {
+			case *ssa.MakeSlice:
+				return true
+			case *ssa.Slice:
+				return fresh(x.X)
+			case *ssa.Phi:
+				for _, e := range x.Edges {
+					if !fresh(e) {
+						return false
+					}
+				}
+				return true
+			case *ssa.Alloc:
+				return true
+			}
+			return false
+		}
+		if !fresh(root) {
+			shared = "writeValue encodes into " + shortErr(root) + " (" + c.Pos(ci.Pos()) + "), which is not a buffer allocated by this call: concurrent encoders of the same message type share it"
+		}
+	}
+	r.Check(shared == "", rule, "ReadWriter.Write buffer ownership", c.Pos(wr.Pos()), "every encode target is a slice of the per-call allocation", shared)
 }
